@@ -19,6 +19,38 @@ struct GramOpts {
 inline std::string tname(int i) { return std::string(1, (char)('a' + i)); }
 inline std::string nname(int i) { return std::string(1, (char)('A' + i)); }
 
+// translations, abstract node names and costs for every rule of g
+inline void assignTranslations(Choices &c, RawGram &g, const GramOpts &o, bool shareNames) {
+  int nR = g.rules.size();
+  for (int r = 0; r < nR; r++) {
+    RawRule &ru = g.rules[r];
+    int len = ru.rhs.size();
+    ru.anode = shareNames && c.flip() ? "x" : "n" + std::to_string(r);
+    ru.cost = c.upto(3);
+    if (o.fullYield) {
+      ru.has_anode = true;
+      for (int k = 0; k < len; k++) ru.transl.push_back(k);
+    } else {
+      int m = c.upto(6);
+      if (m <= 3) { // abstract node: permutation of a subset, nil padded
+        ru.has_anode = true;
+        std::vector<int> idx;
+        for (int k = 0; k < len; k++) idx.push_back(k);
+        for (int k = len - 1; k > 0; k--) std::swap(idx[k], idx[c.upto(k)]);
+        if (m == 0) std::sort(idx.begin(), idx.end());
+        int take = m == 0 ? len : c.upto(len);
+        for (int k = 0; k < take; k++) {
+          if (c.chance(12)) ru.transl.push_back(NILNUM);
+          ru.transl.push_back(idx[k]);
+        }
+        if (c.chance(12)) ru.transl.push_back(NILNUM);
+      } else if (m == 4 && len > 0) ru.transl.push_back(c.upto(len - 1)); // pass-through
+      else if (m == 5) ru.transl.push_back(NILNUM);                         // `# -'
+      else if (c.chance(30)) ru.transl_null = true;                         // no translation at all
+    }
+  }
+}
+
 inline RawGram genGrammar(Choices &c, const GramOpts &o) {
   RawGram g;
   int nT = c.range(1, o.maxT), nN = c.range(1, o.maxN);
@@ -100,36 +132,88 @@ inline RawGram genGrammar(Choices &c, const GramOpts &o) {
         g.rules.push_back(ru);
       }
   }
-  nR = g.rules.size();
-  // pass 3: translations
-  for (int r = 0; r < nR; r++) {
-    RawRule &ru = g.rules[r];
-    int len = ru.rhs.size();
-    ru.anode = shareNames && c.flip() ? "x" : "n" + std::to_string(r);
-    ru.cost = c.upto(3);
-    if (o.fullYield) {
-      ru.has_anode = true;
-      for (int k = 0; k < len; k++) ru.transl.push_back(k);
-    } else {
-      int m = c.upto(6);
-      if (m <= 3) { // abstract node: permutation of a subset, nil padded
-        ru.has_anode = true;
-        std::vector<int> idx;
-        for (int k = 0; k < len; k++) idx.push_back(k);
-        for (int k = len - 1; k > 0; k--) std::swap(idx[k], idx[c.upto(k)]);
-        if (m == 0) std::sort(idx.begin(), idx.end());
-        int take = m == 0 ? len : c.upto(len);
-        for (int k = 0; k < take; k++) {
-          if (c.chance(12)) ru.transl.push_back(NILNUM);
-          ru.transl.push_back(idx[k]);
+  assignTranslations(c, g, o, shareNames);
+  return g;
+}
+
+// Sequence template: S : C1 C2 ... Ck where every component has a few short alternatives over a very small alphabet
+// (variable length, empty, duplicated right-hand sides with other costs, one level of nesting): many ways to split the
+// input between the components, middle components ending at one place with different origins, shared subtrees.
+inline RawGram genSeqGrammar(Choices &c, const GramOpts &o) {
+  RawGram g;
+  int nT = c.range(1, 3);
+  for (int t = 0; t < nT; t++) g.terms.push_back({tname(t), 'a' + t});
+  int k = c.range(2, 4);
+  int nN = 1 + k + (c.chance(40) ? 1 : 0); // S, components, optional nested one
+  auto term = [&]() { return tname(c.chance(60) ? 0 : c.upto(nT - 1)); };
+  RawRule top; top.lhs = nname(0);
+  for (int i = 1; i <= k; i++) {
+    if (c.chance(15)) top.rhs.push_back(term());
+    top.rhs.push_back(nname(i));
+  }
+  if (c.chance(15)) top.rhs.push_back(term());
+  g.rules.push_back(top);
+  for (int i = 1; i < nN; i++) {
+    int nr = c.range(1, 3);
+    size_t first = g.rules.size();
+    for (int j = 0; j < nr; j++) {
+      RawRule r; r.lhs = nname(i);
+      if (j > 0 && c.chance(35)) r.rhs = g.rules[first + c.upto(j - 1)].rhs; // same right-hand side again
+      else {
+        int shape = c.upto(5);
+        if (shape == 5 && (nN - 1 <= k || i == nN - 1)) shape = 1; // only components refer to the nested nonterminal
+        switch (shape) {
+        case 0: break;                                             // empty
+        default: r.rhs = {term()}; break;
+        case 2: r.rhs = {term(), term()}; break;
+        case 3: r.rhs = {term(), term(), term()}; break;
+        case 5: r.rhs = {nname(nN - 1)}; if (c.flip()) r.rhs.push_back(term()); break;
         }
-        if (c.chance(12)) ru.transl.push_back(NILNUM);
-      } else if (m == 4 && len > 0) ru.transl.push_back(c.upto(len - 1)); // pass-through
-      else if (m == 5) ru.transl.push_back(NILNUM);                         // `# -'
-      else if (c.chance(30)) ru.transl_null = true;                         // no translation at all
+      }
+      g.rules.push_back(r);
     }
   }
+  if (nN - 1 > k) { // the nested nonterminal must be used
+    bool used = false;
+    for (auto &r : g.rules) for (auto &x : r.rhs) if (x == nname(nN - 1)) used = true;
+    if (!used) { RawRule r; r.lhs = nname(c.range(1, k)); r.rhs = {nname(nN - 1)}; g.rules.push_back(r); }
+  }
+  assignTranslations(c, g, o, c.chance(15));
   return g;
+}
+
+// List wrapper: a new start symbol Z deriving a list of phrases of the old start symbol S (optionally separated by a
+// terminal), so that sentences repeat phrases at different places of the parse list.  Returns the shape:
+// 0 none, 1 Z : S | Z [sep] S, 2 Z : S | S [sep] Z, 3 Z : | Z [sep] S
+struct WrapInfo { int shape = 0; std::string sep; std::string inner; };
+inline WrapInfo wrapList(Choices &c, RawGram &g, const GramOpts &o) {
+  WrapInfo wi;
+  if (g.rules.empty() || g.terms.empty()) return wi;
+  wi.inner = g.rules[0].lhs;
+  wi.shape = c.range(1, 3);
+  if (c.chance(55)) wi.sep = g.terms[c.upto((int)g.terms.size() - 1)].first;
+  const std::string Z = "Z";
+  std::vector<RawRule> rs(2);
+  rs[0].lhs = rs[1].lhs = Z;
+  auto rec = [&](RawRule &r, bool left) {
+    if (left) r.rhs.push_back(Z); else r.rhs.push_back(wi.inner);
+    if (!wi.sep.empty()) r.rhs.push_back(wi.sep);
+    if (left) r.rhs.push_back(wi.inner); else r.rhs.push_back(Z);
+  };
+  if (wi.shape == 1) { rec(rs[0], true); rs[1].rhs = {wi.inner}; }
+  else if (wi.shape == 2) { rs[0].rhs = {wi.inner}; rec(rs[1], false); }
+  else { rec(rs[1], true); }
+  for (int k = 0; k < 2; k++) {
+    RawRule &r = rs[k];
+    r.cost = c.upto(3);
+    int len = r.rhs.size();
+    int m = o.fullYield ? 0 : c.upto(3);
+    if (m <= 1) { r.has_anode = true; r.anode = "w" + std::to_string(k); for (int i = 0; i < len; i++) if (m == 0 || r.rhs[i] != wi.sep) r.transl.push_back(i); }
+    else if (m == 2 && len > 0) r.transl.push_back(c.upto(len - 1));
+    else r.transl_null = true;
+  }
+  g.rules.insert(g.rules.begin(), rs.begin(), rs.end());
+  return wi;
 }
 
 // minimal yield length of every symbol (INT_MAX/2 if unproductive)
@@ -175,12 +259,26 @@ inline bool genSentence(Choices &c, const Gram &g, const std::vector<int> &ml, i
 }
 
 // One input for grammar g: kind 0 sentence, 1 mutated sentence, 2 random string.
-inline std::vector<int> genInputIdx(Choices &c, const Gram &g, const std::vector<int> &ml, int maxLen, int kind) {
+// (phraseSym >= 0: the start symbol derives lists of phraseSym separated by sepTerm (-1: nothing); the sentence is built
+// from 2..5 phrases, some of them repeated)
+inline std::vector<int> genInputIdx(Choices &c, const Gram &g, const std::vector<int> &ml, int maxLen, int kind, int phraseSym = -1, int sepTerm = -1) {
   std::vector<int> w;
   int nDecl = g.nT - 1; // without `error'
   if (nDecl <= 0) return w; // no declared terminal: only the empty input exists
   auto rndTerm = [&]() { int t = c.upto(nDecl - 1); return t >= g.errT ? t + 1 : t; };
-  if (kind <= 1) {
+  if (kind <= 1 && phraseSym >= 0) {
+    int n = c.range(2, 5);
+    std::vector<std::vector<int>> ph;
+    for (int j = 0; j < n; j++) {
+      std::vector<int> p;
+      if (j > 0 && c.chance(35)) p = ph[c.upto(j - 1)];
+      else if (!genSentence(c, g, ml, phraseSym, std::max(2, maxLen / 3), 2, p)) { ph.clear(); break; }
+      ph.push_back(p);
+    }
+    if (ph.empty()) kind = 2;
+    for (size_t j = 0; j < ph.size(); j++) { if (j && sepTerm >= 0) w.push_back(sepTerm); w.insert(w.end(), ph[j].begin(), ph[j].end()); }
+    if ((int)w.size() > 2 * maxLen + 6) w.resize(2 * maxLen + 6);
+  } else if (kind <= 1) {
     if (!genSentence(c, g, ml, g.start, maxLen, 0, w)) { w.clear(); kind = 2; }
     if ((int)w.size() > maxLen + 6) w.resize(maxLen + 6);
   }
@@ -213,6 +311,81 @@ inline bool toIdx(const Gram &g, const std::vector<int> &codes, std::vector<int>
   w.clear();
   for (int c : codes) { int t = g.termByCode(c); if (t < 0) return false; w.push_back(t); }
   return true;
+}
+
+// ------------------------------------------------------------------ wide grammars (hundreds of symbols and rules)
+// A small random grammar scaled up: shape 0 = N renamed copies of the whole grammar, shape 1 = the grammar once, used
+// inside N different pairs of bracket terminals.  The start symbol derives a list of phrases, one per copy/bracket pair.
+// A deterministic expansion of one generated seed value drives the long, repetitive parts (choice vectors are short).
+struct SubChoices {
+  std::vector<uint32_t> v;
+  explicit SubChoices(uint32_t seed, size_t n) { uint64_t x = seed * 2654435761u + 12345; for (size_t i = 0; i < n; i++) { x = x * 6364136223846793005ULL + 1442695040888963407ULL; v.push_back((uint32_t)(x >> 33)); } }
+};
+struct WideInfo { int shape = 0, copies = 0; bool singleP = false; std::string inner; std::vector<std::string> innerOf; };
+inline RawGram genWideGrammar(Choices &c, const GramOpts &o0, WideInfo &wi) {
+  GramOpts o = o0; o.maxT = std::min(o.maxT, 3); o.maxN = std::min(o.maxN, 3); o.extraRules = std::min(o.extraRules, 2);
+  RawGram base = genGrammar(c, o);
+  wi.shape = c.upto(1);
+  int N = wi.copies = 20 * c.range(1, 40);
+  int codeMode = c.upto(2);
+  int nextCode = codeMode == 1 ? 256 : 0;
+  auto newCode = [&]() { int k = nextCode++; return codeMode == 2 ? 1000 + k * 9973 : k; };
+  RawGram g;
+  std::set<std::string> baseT;
+  for (auto &t : base.terms) baseT.insert(t.first);
+  wi.inner = base.rules[0].lhs;
+  std::vector<std::string> phraseNt;
+  if (wi.shape == 0) {
+    for (int i = 0; i < N; i++) {
+      std::string sfx = "_" + std::to_string(i);
+      for (auto &t : base.terms) g.terms.push_back({t.first + sfx, newCode()});
+      for (auto r : base.rules) { r.lhs += sfx; for (auto &x : r.rhs) if (x != "error") x += sfx; if (r.has_anode) r.anode += sfx; g.rules.push_back(r); }
+      phraseNt.push_back(wi.inner + sfx);
+    }
+    wi.innerOf = phraseNt;
+  } else {
+    for (auto &t : base.terms) g.terms.push_back({t.first, newCode()});
+    g.rules = base.rules;
+    wi.singleP = c.flip();
+    for (int i = 0; i < N; i++) {
+      std::string sfx = std::to_string(i);
+      g.terms.push_back({"o" + sfx, newCode()});
+      g.terms.push_back({"c" + sfx, newCode()});
+      RawRule r; r.lhs = wi.singleP ? "Ph" : "Ph" + sfx; r.rhs = {"o" + sfx, wi.inner, "c" + sfx};
+      r.has_anode = true; r.anode = "p" + sfx; r.cost = 1; r.transl = {1};
+      g.rules.push_back(r);
+      if (!wi.singleP || i == 0) phraseNt.push_back(r.lhs);
+    }
+  }
+  std::vector<RawRule> top;
+  { RawRule r; r.lhs = "Top"; r.rhs = {"Lst"}; r.transl = {0}; top.push_back(r); }
+  { RawRule r; r.lhs = "Lst"; if (c.flip()) r.rhs = {phraseNt[0]}; r.has_anode = true; r.anode = "l0"; r.cost = 0; top.push_back(r); }
+  for (auto &pn : phraseNt) { RawRule r; r.lhs = "Lst"; r.rhs = {"Lst", pn}; r.has_anode = true; r.anode = "l"; r.cost = 0; r.transl = {0, 1}; top.push_back(r); }
+  g.rules.insert(g.rules.begin(), top.begin(), top.end());
+  return g;
+}
+// an input of up to maxTok tokens for a wide grammar: phrases of the copies start, start+stride, ... (mod N)
+inline std::vector<int> genWideInput(Choices &c, const Gram &g, const std::vector<int> &ml, const WideInfo &wi, int maxTok) {
+  std::vector<int> w;
+  int N = wi.copies;
+  int start = c.upto(N - 1), stride = c.flip() ? 1 : c.range(1, 7);
+  int n = N * c.range(1, 2);
+  SubChoices sc(c.raw(), 6 * (size_t)n + 16);
+  Choices sub(sc.v);
+  int inner = wi.shape == 1 ? g.symByName(wi.inner) : -1;
+  for (int j = 0; j < n && (int)w.size() < maxTok; j++) {
+    int i = (int)(((long)start + (long)j * stride) % N);
+    std::vector<int> p;
+    if (wi.shape == 0) { int a = g.symByName(wi.innerOf[i]); if (a < 0 || !genSentence(sub, g, ml, a, 4, 4, p)) continue; }
+    else {
+      int op = g.symByName("o" + std::to_string(i)), cl = g.symByName("c" + std::to_string(i));
+      p.push_back(op);
+      if (inner < 0 || !genSentence(sub, g, ml, inner, 4, 4, p)) continue;
+      p.push_back(cl);
+    }
+    w.insert(w.end(), p.begin(), p.end());
+  }
+  return w;
 }
 
 // grammar feature labels (measured distribution of the generator)
